@@ -138,6 +138,8 @@ class Num:
         else:
             # rational power of the coefficient only if exact
             import math
+            if c < 0:
+                raise ValueError("fractional power of a negative coefficient is outside the fragment")
             n, d = c.numerator, c.denominator
             rn = round(n ** (1 / ev.denominator))
             rd = round(d ** (1 / ev.denominator))
